@@ -47,32 +47,38 @@ package scorch
 //@   ensures implies(result1 == nil && result0 != nil, result0.Number() < segCount(it) && result0.Number() >= docNum && it.pstarted && it.plast == result0.Number() && !it.pdone)
 //@   ensures implies(result1 == nil && result0 == nil, it.pdone && it.pstarted == old(it.pstarted) && it.plast == old(it.plast))
 
-// A snapshot's offsets: one per segment, starting at 0, non-decreasing.
-//@ spec offsetsOK(is *IndexSnapshot) bool = len(is.offsets) == len(is.segment) && implies(len(is.offsets) > 0, is.offsets[0] == 0) && \
+// A snapshot's offsets: one per segment, starting at 0, non-decreasing. Opaque: only the
+// segment lookup (binary search) and the reader's Advance need the pairwise order.
+//@ spec opaque offsetsOK(is *IndexSnapshot) bool = len(is.offsets) == len(is.segment) && implies(len(is.offsets) > 0, is.offsets[0] == 0) && \
 //@     forall(p, 0, len(is.offsets), forall(q, p+1, len(is.offsets), is.offsets[p] <= is.offsets[q])) && forall(p, 0, len(is.offsets), is.offsets[p] < 4611686018427387904)
 
 // The segment of a global doc number: the last offset <= docNum.
 //@ func IndexSnapshot.segmentIndexAndLocalDocNumFromGlobal
 //@   props C08 C01
 //@   mode int
+//@   reveal offsetsOK
 //@   requires is != nil && offsetsOK(is) && len(is.offsets) > 0
 //@   ensures 0 <= result0 && result0 < len(is.offsets) && is.offsets[result0] <= docNum && (result0+1 == len(is.offsets) || docNum < is.offsets[result0+1]) && result1 == docNum - is.offsets[result0]
 
 // ---- the reader: cursor in global doc numbers (ghost) ----
 //@ ghostfield IndexSnapshotTermFieldReader.gstarted bool
 //@ ghostfield IndexSnapshotTermFieldReader.glast uint64
+// position of an iterator in its reader (makes the iterators of one reader pairwise distinct)
+//@ uf itPos(it segment.PostingsIterator) int
 
-//@ spec tfrShape(i *IndexSnapshotTermFieldReader) bool = i.snapshot != nil && offsetsOK(i.snapshot) && len(i.iterators) == len(i.snapshot.offsets) && \
-//@     0 <= i.segmentOffset && i.segmentOffset <= len(i.iterators) && forall(k, 0, len(i.iterators), i.iterators[k] != nil) && \
-//@     forall(p, 0, len(i.iterators), forall(q, p+1, len(i.iterators), i.iterators[p] != i.iterators[q])) && \
-//@     forall(k, 0, len(i.iterators)-1, i.snapshot.offsets[k] + segCount(i.iterators[k]) <= i.snapshot.offsets[k+1]) && forall(k, 0, len(i.iterators), segCount(i.iterators[k]) < 4611686018427387904)
-// iterators of later segments are untouched; a started iterator never ran ahead of the reader;
-// what the current segment can still deliver lies beyond the last returned id
+//@ spec tfrShape(i *IndexSnapshotTermFieldReader) bool = i.snapshot != nil && offsetsOK(i.snapshot) && len(i.iterators) == len(i.snapshot.offsets) && len(i.iterators) == len(i.snapshot.segment) && \
+//@     0 <= i.segmentOffset && i.segmentOffset <= len(i.iterators) && forall(k, 0, len(i.iterators), i.iterators[k] != nil && itPos(i.iterators[k]) == k) && \
+//@     forall(k, 0, len(i.iterators), i.snapshot.offsets[k] < 4611686018427387904 && segCount(i.iterators[k]) < 4611686018427387904) && \
+//@     forall(k, 0, len(i.iterators)-1, i.snapshot.offsets[k] + segCount(i.iterators[k]) <= i.snapshot.offsets[k+1])
+// iterators of later segments have delivered nothing; a started iterator never ran ahead of the
+// reader; what the current segment can still deliver lies beyond the last returned id, and that id
+// lies before the next segment
 //@ spec tfrCursor(i *IndexSnapshotTermFieldReader) bool = forall(k, i.segmentOffset+1, len(i.iterators), !i.iterators[k].pstarted) && \
 //@     forall(k, 0, len(i.iterators), implies(i.iterators[k].pstarted, i.gstarted && i.iterators[k].plast < segCount(i.iterators[k]) && i.snapshot.offsets[k] + i.iterators[k].plast <= i.glast)) && \
 //@     implies(i.segmentOffset < len(i.iterators) && i.iterators[i.segmentOffset].pstarted && !i.iterators[i.segmentOffset].pdone, i.glast == i.snapshot.offsets[i.segmentOffset] + i.iterators[i.segmentOffset].plast) && \
 //@     implies(i.gstarted && i.segmentOffset < len(i.iterators) && !i.iterators[i.segmentOffset].pstarted, i.glast < i.snapshot.offsets[i.segmentOffset]) && \
-//@     implies(i.gstarted && i.segmentOffset + 1 < len(i.iterators), i.glast < i.snapshot.offsets[i.segmentOffset+1])
+//@     implies(i.gstarted && i.segmentOffset + 1 < len(i.iterators), i.glast < i.snapshot.offsets[i.segmentOffset+1]) && \
+//@     implies(i.currPosting != nil, i.gstarted && idNum(i.currID) <= i.glast)
 
 // With frequencies, norms and term vectors switched off the conversion leaves rv alone (the id
 // is set by the caller). The three flags are requirements of every reader contract below: the
@@ -95,6 +101,8 @@ package scorch
 //@   at return: ghost i.gstarted = i.gstarted || (result1 == nil && result0 != nil)
 //@   at return: ghost i.glast = ite(result1 == nil && result0 != nil, idNum(result0.ID), i.glast)
 //@   ensures implies(result1 == nil, tfrShape(i) && tfrCursor(i))
+//@   ensures implies(result1 == nil && result0 != nil, i.gstarted && i.glast == idNum(result0.ID)) && implies(result0 == nil, i.gstarted == old(i.gstarted) && i.glast == old(i.glast))
+//@   ensures i.snapshot == old(i.snapshot) && i.iterators == old(i.iterators)
 //@   ensures implies(result1 == nil && result0 != nil, implies(old(i.gstarted), idNum(result0.ID) > old(i.glast)) && idNum(result0.ID) >= i.snapshot.offsets[old(i.segmentOffset)] && i.currPosting != nil && i.currID == result0.ID)
 //@   ensures implies(result1 == nil && result0 != nil && old(i.segmentOffset) < len(i.iterators) && old(i.iterators[i.segmentOffset].pdone), old(i.segmentOffset) + 1 < len(i.iterators) && idNum(result0.ID) >= i.snapshot.offsets[old(i.segmentOffset)+1])
 //@   loop 0: invariant tfrShape(i) && tfrCursor(i) && i.segmentOffset >= old(i.segmentOffset) && i.gstarted == old(i.gstarted) && i.glast == old(i.glast) && rv != nil && i.snapshot == old(i.snapshot) && i.iterators == old(i.iterators)
